@@ -76,6 +76,23 @@ def die_state(d):
     return (d.width, d.height, rs(d.blockages), rs(d.specialized_regions), rs(d.ground_regions), rs(d.fixed_regions))
 
 
+def written_over(obj, t1, k, what):
+    """the writer is given the name of a file that already holds an older, longer document: the file is then the document produced"""
+    from gen import files
+    path = files.write(k, t1 + "# an older, longer document\n" + t1.replace("\n", "\n# ") + "\n")
+    try:
+        try:
+            obj.write_yaml(path)
+        except Exception as e:
+            raise Violation("%s: write_yaml(<file name>) raised %s: %s" % (what, type(e).__name__, e), "write-raised")
+        got = open(path).read()
+        if got != t1:
+            raise Violation("%s: written into a file that held a longer document, the file (%d characters) is not the document produced (%d "
+                            "characters): it ends with %r" % (what, len(got), len(t1), got[-60:]), "file-is-not-the-document")
+    finally:
+        os.unlink(path)
+
+
 def run_die(c):
     nl = Netlist(D.fixed_netlist_tree(c)) if c["fixed"] else None
     die = Die(D.die_tree(c), nl) if nl is not None else Die(D.die_tree(c))
@@ -97,6 +114,8 @@ def run_die(c):
         raise Violation("Die.write_yaml altered the die", "producer-mutates")
     if t1 != t2:
         raise Violation("Die.write_yaml twice gives different documents:\n%s\n---\n%s" % (t1, t2), "not-repeatable")
+    if (c["W"] + 2 * c["H"]) % 3 == 0:
+        written_over(die, t1, c["W"] + c["H"], "Die.write_yaml")
     nl2 = Netlist(D.fixed_netlist_tree(c)) if c["fixed"] else None
     readers = read_both(t1, (lambda s: Die(s, nl2)) if nl2 is not None else (lambda s: Die(s)), "Die.write_yaml")
     W, H = Fr(die.width), Fr(die.height)
@@ -111,6 +130,8 @@ def run_die(c):
                                                                    [snap(X.of_frame(r), c) for r in die.ground_regions]):
             raise Violation("die written as\n%s\nreads back with ground area %s instead of %s" % (t1, float(ga), float(gb)), "content-differs")
     cls = ["failed-productions-in-between"] if fail_between else []
+    if (c["W"] + 2 * c["H"]) % 3 == 0:
+        cls.append("written-over-a-longer-file")
     if ref:
         cls.append("refined-" + ref[0])
     if c["fixed"]:
@@ -184,6 +205,8 @@ def check_alloc_roundtrip(al, what, fail_between=False):
     if t1 != t2:
         raise Violation("%s: writing twice%s gives different documents:\n%r\n---\n%r" % (
             what, " (with failed productions of other objects in between)" if fail_between else "", t1[:300], t2[:300]), "not-repeatable")
+    if len(before) % 3 == 0:
+        written_over(al, t1, len(before) + len(t1), what + ": Allocation.write_yaml")
     for al2 in read_both(t1, Allocation, what + ": Allocation.write_yaml"):
         after = alloc_state(al2)
         if after != before:
@@ -697,7 +720,7 @@ def legal_s(draw):
 
 def subchecks():
     return [
-        Sub("die", run_die, strategy=die_s(), n_quick=1500, n_thorough=30000, required=("refined-split", "with-fixed", "specialised", "failed-productions-in-between")),
+        Sub("die", run_die, strategy=die_s(), n_quick=1500, n_thorough=30000, required=("refined-split", "with-fixed", "specialised", "failed-productions-in-between", "written-over-a-longer-file")),
         Sub("alloc", run_alloc, strategy=alloc_s(), n_quick=1500, n_thorough=30000,
             required=("generated", "initial", "after-refine", "after-griddify", "depth>0", "cell-in-region", "failed-productions-in-between")),
         Sub("netgen", run_netgen, enum=netgen_cases, exhaustive=True, desc="every listed topology at every listed size through netgen.main"),
